@@ -331,6 +331,41 @@ func planOp(d dialect, a, b dsch, perm func(int) []int) *op {
 	return o
 }
 
+// caseTwinOp plans the creation of schema a plus, for every table, a twin whose name differs only
+// in letter case (MySQL on a case-sensitive file system and PostgreSQL with quoted names keep both):
+// wherever tables are ordered by name, such names must not be treated as equal.
+func caseTwinOp(d dialect, a dsch) *op {
+	o := &op{name: "plan-case-twins/" + d.name}
+	o.steps = []func() error{func() error {
+		tw := a.clone()
+		for _, tb := range a.Tables {
+			c := dsch{Tables: []dtbl{tb}}.clone().Tables[0]
+			c.Name = strings.ToUpper(tb.Name)
+			for i := range c.Idx {
+				c.Idx[i].Name = strings.ToUpper(c.Idx[i].Name)
+			}
+			for i := range c.FKs {
+				c.FKs[i].Name = strings.ToUpper(c.FKs[i].Name)
+			}
+			for i := range c.Chk {
+				c.Chk[i].Name = strings.ToUpper(c.Chk[i].Name)
+			}
+			tw.Tables = append(tw.Tables, c)
+		}
+		changes, err := d.diff.SchemaDiff(schema.New(d.schema), build(d, tw, nil))
+		if err != nil {
+			return err
+		}
+		plan, err := d.plan.PlanChanges(context.Background(), "p", changes)
+		if err != nil {
+			return err
+		}
+		o.out = []byte(planText(plan))
+		return nil
+	}}
+	return o
+}
+
 var errReplan = errors.New("planning the same change set twice gives different statements")
 
 func planText(p *migrate.Plan) string {
@@ -684,6 +719,7 @@ func (sc scenario) ops(perm func(int) []int) []*op {
 	out = append(out, richOp(dialects[1], 10+len(sc.files)), richOp(dialects[2], 10+len(sc.files)))
 	out = append(out, scopeOp(dialects[1], sc.a), scopeOp(dialects[2], sc.a))
 	out = append(out, realmOp(dialects[1], sc.realm), realmOp(dialects[2], sc.realm))
+	out = append(out, caseTwinOp(dialects[1], sc.a), caseTwinOp(dialects[2], sc.a))
 	return append(out, sumOp(sc.files))
 }
 
